@@ -111,6 +111,18 @@ SolveFail(ev) ==
           IN Fail(IF IsFin(SpecFlat(p)[k]) /\ IsFin(ev.V[p + 1][k]) THEN "solve-value" ELSE "neg-inf-iff-infeasible",
                   ToString(<<"period", p, "entry", k - 1, "spec", SpecFlat(p)[k], "obs", ev.V[p + 1][k]>>))
   ELSE <<"run">>
+\* layout only (group "shape"): the list length and every array shape, for models whose values the exact semantics does not
+\* speak about -- continuous grids whose spacing is below the resolution of the working precision: neighbouring nodes
+\* coincide after rounding, the axis still has the length of the grid (C05)
+ShapeFail(ev) ==
+  IF ev.n # M.T \/ Len(ev.V) # M.T \/ Len(ev.shapes) # M.T
+     THEN Fail("n-arrays", ToString(<<ev.n, M.T>>))
+  ELSE IF \E p \in 0..M.T - 1 : ev.shapes[p + 1] # Shape(M, p)
+     THEN LET p == CHOOSE p \in 0..M.T - 1 : ev.shapes[p + 1] # Shape(M, p)
+          IN Fail("layout-shape", ToString(<<"period", p, "obs", ev.shapes[p + 1], "spec", Shape(M, p)>>))
+  ELSE IF \E p \in 0..M.T - 1 : Len(ev.V[p + 1]) # NumCells(M, p)
+     THEN Fail("layout-shape", "number of entries")
+  ELSE <<"run">>
 SolveExact(ev) == \A p \in 0..M.T - 1 : ev.V[p + 1] = SpecFlat(p)
 \* diagnostic: the recorded intermediate arrays of the backward loop against the implementation-shaped machine
 CcvKeys(p) ==
@@ -128,6 +140,8 @@ TrSolve ==
   /\ IF Grp("solve")
      THEN /\ verdict' = SolveFail(Ev)
           /\ exact' = (exact /\ verdict'[1] = "run" /\ SolveExact(Ev))
+     ELSE IF Grp("shape")
+     THEN verdict' = ShapeFail(Ev) /\ exact' = FALSE
      ELSE UNCHANGED <<verdict, exact>>
   /\ diag' = diag \o CcvDiag(Ev)
   /\ l' = l + 1
